@@ -272,6 +272,8 @@ pub fn c03(ctx: &mut Ctx) {
         }
     }
     ctx.flush_model("C03-kzg10");
+    let n = ctx.n(6, 60);
+    batch_shapes(ctx, "C03", n);
 }
 
 pub fn c05(ctx: &mut Ctx) {
@@ -302,6 +304,63 @@ pub fn c05(ctx: &mut Ctx) {
         }
     }
     ctx.flush_model("C05-kzg10");
+    let n = ctx.n(10, 100);
+    batch_shapes(ctx, "C05", n);
+}
+
+/// `KZG10::batch_check` with slices of different lengths and a false claim among the claims that
+/// have no proof (or a surplus proof): must be refused; equals the model
+pub fn batch_shapes(ctx: &mut Ctx, prop: &str, n: usize) {
+    for i in 0..n {
+        let mut rng = rng_for(ctx.seed, &format!("{}/kzg10-shape", prop), i as u64);
+        let k = range(&mut rng, 2, 5);
+        let b = honest_batch(&mut rng, 16, k);
+        let vk = b.items[0].vk.clone();
+        let cs: Vec<Commitment<Bls12_381>> = b.items.iter().map(|t| t.comm).collect();
+        let zs: Vec<Fr> = b.items.iter().map(|t| t.z).collect();
+        let mut vs: Vec<Fr> = b.items.iter().map(|t| t.v).collect();
+        // the false claim sits at the last position
+        vs[k - 1] += rand_nonzero(&mut rng);
+        let ps: Vec<Proof<Bls12_381>> = b.items.iter().map(|t| t.proof).collect();
+        let mut c_ss = vec![];
+        let mut w_ss = vec![];
+        for t in &b.items {
+            if let Some((c, w)) = scalars(t) { c_ss.push(c); w_ss.push(w); }
+        }
+        if c_ss.len() != k { continue; }
+        let shapes: Vec<(&str, usize, usize, usize, usize)> = vec![
+            ("proofs-truncated", k, k, k, k - 1),
+            ("proofs-empty", k, k, k, 0),
+            ("values-truncated", k, k, k - 1, k),
+            ("points-truncated", k, k - 1, k, k),
+            ("commitments-truncated", k - 1, k, k, k),
+        ];
+        for (name, nc, nz, nv, np) in shapes {
+            let id = format!("{}/kzg10-shape/{}/{}", prop, i, name);
+            if !ctx.selected(&id) { continue; }
+            let rs = replay_u128(&rng, k + 1);
+            let out = batch_check_impl(&vk, &cs[..nc], &zs[..nz], &vs[..nv], &ps[..np], &mut rng.clone());
+            let acc = accepted(&out);
+            let t0 = &b.items[0];
+            let req = t0
+                .vk_args(Req::new("kzg.batch_check"))
+                .arg("cs", wire::fes(&c_ss[..nc]))
+                .arg("zs", wire::fes(&zs[..nz]))
+                .arg("vs", wire::fes(&vs[..nv]))
+                .arg("ws", wire::fes(&w_ss[..np]))
+                .arg("rvs", wire::Val::L(ps[..np].iter().map(|p| wire::opt_fe(&p.random_v)).collect()))
+                .arg("rs", wire::fes(&rs));
+            ctx.ses.ask(&id, req, out);
+            if acc {
+                ctx.rep.expect_fail(&id, &format!("kzg10/false-claim-accepted/shape-{}", name),
+                    "batch_check accepted slices of different lengths although a claim is false",
+                    format!("# scheme: kzg10 batch_check\n# case: {}\n# seed: {}\n# k={} shape={} (false claim at the last position)\n", id, ctx.seed, k, name));
+            }
+            ctx.rep.count(&format!("kzg10/shape-{}", name));
+            ctx.rep.case(&format!("kzg10 batch shape {} k={} accepted={}", name, k, acc), Some(format!("kzg10-shape/{}/{}", k, name)));
+        }
+    }
+    ctx.flush_model(&format!("{}-kzg10-shape", prop));
 }
 
 pub fn c10(ctx: &mut Ctx) {
